@@ -173,9 +173,11 @@ func VX_C15_write_big() {
 // (encoding/json's decoder is represented by the reference decoder of C14, which hands the
 // reader's error on as the real one does.)
 func VX_C15_readjson() {
-	vx.ModelJSONDecoder(c14decode)
+	vx.ModelJSONStream(c14newStream)
 	doc := []byte(`[{"a":1.5,"b":"x"},{"a":2,"b":null}]`)
-	failAt := vxConc(vx.IntN(0, len(doc)), len(doc)+1)
+	// every offset inside the document; a reader that fails only after the closing bracket has been
+	// delivered is never asked again by a decoder that has its complete value
+	failAt := vxConc(vx.IntN(0, len(doc)-1), len(doc))
 	var ferr error = vxBoom
 	if vx.Bool() {
 		ferr = vxWrapEOF{}
